@@ -62,8 +62,9 @@ def mentions(k, name):
 
 
 class UB1:
-    def __init__(self, f, field_inv=None, max_iter=60, assume=None, mods=None):
+    def __init__(self, f, field_inv=None, max_iter=60, assume=None, mods=None, clampers=None):
         self.f = f
+        self.clampers = clampers or {}
         self.assume = assume or {}
         self.mods = mods
         self.cfg = f.cfg
@@ -297,6 +298,12 @@ class UB1:
             if l is not None and r is not None and l["k"] == "DeclRefExpr" and r["k"] in ("DeclRefExpr", "MemberExpr") \
                     and const_value(r) is None:
                 st["?rel:%s<%s" % (key(l), key(r))] = (0, 1)     # l <= r
+            if l is not None and r is not None and l["k"] == "DeclRefExpr" and r["k"] == "CallExpr" and r.get("callee") in self.clampers:
+                # x = clamp(obj, ..): helper proven to return a value <= obj-><field>
+                oi, fld = self.clampers[r["callee"]]
+                args = r["c"][1:]
+                if oi < len(args):
+                    st["?rel:%s<%s->%s" % (key(l), key(args[oi]), fld)] = (0, 1)
         elif k == "CompoundAssignOperator":
             op = n["op"][:-1]
             cur = self.eval(n["c"][0], st)
